@@ -3,7 +3,7 @@
    every coordinating node [local], every random oracle [choice], and every node
    behaviour [beh : node -> shard ids -> call index -> outcome]. *)
 From Coq Require Import Permutation.
-From Verif Require Import C05.Model C05.Spec C05.ProofsA C05.ProofsB C05.Proofs.
+From Verif Require Import C05.Model C05.Spec C05.ProofsA C05.ProofsB C05.Proofs C05.ProofsC.
 Open Scope N_scope.
 
 (* mapShards: the per-node shard lists partition the query's shard set (Permutation +
@@ -89,6 +89,42 @@ Theorem model_satisfies_spec_partial :
 Proof. exact Proofs.model_satisfies_spec_partial. Qed.
 Print Assumptions model_satisfies_spec_partial.
 
+(* statements with several sources (FROM a, b; subquery + measurement; several retention
+   policies): whatever the order and multiplicity of the sources, for every source of the
+   statement the local shards and remote groups recorded in the mapping are the image of ONE
+   run of the single-source mapper (no source is mapped twice: nothing is appended a second
+   time), hence a partition of that source's shards with distinct nodes. *)
+Theorem map_partition_per_source :
+  forall local (choice : nat -> nat -> shard -> N) (view : N -> list shard) (srcs : list N),
+  (forall x, In x srcs -> wf_shards (view x) = true) ->
+  let st := map_sources local choice view 0 (mkM [] []) srcs in
+  forall x, In x srcs ->
+    src_ok local view st x /\
+    mmapping_ok local (view x) (assoc_get [] (lmap st) x) (groups_of (assoc_get [] (rmap st) x)) = true.
+Proof.
+  intros local choice view srcs Hwf st x Hx.
+  assert (Hok : src_ok local view st x).
+  { apply map_sources_ok; [| intros y; left; repeat split | exact Hx].
+    intros y Hy. specialize (Hwf y Hy). unfold wf_shards in Hwf. apply andb_true_iff in Hwf. tauto. }
+  split; [exact Hok | apply mmapping_ok_src; [apply Hwf; exact Hx | exact Hok]].
+Qed.
+Print Assumptions map_partition_per_source.
+
+(* link for multi-source statements: mapping per source is a partition, every operation on
+   any source's measurement returns the single-node answer or an error, and when no node
+   fails the requests of an operation plus the local shards read every shard of the source
+   exactly once.  _partial: no_clean_cut, as above. *)
+Theorem model_multi_satisfies_spec_partial :
+  forall local choice view data beh srcs ops quiet,
+  (forall x, In x srcs -> wf_shards (view x) = true) ->
+  (forall o, In o ops -> In (fst o) srcs) ->
+  no_clean_cut beh ->
+  (quiet = true -> forall n k i, beh n k i = Serve) ->
+  let '(st, res) := model_mrun true local choice view data beh srcs ops in
+  mspec_ok local view data srcs ops (lmap st) (rm_groups st) res quiet = true.
+Proof. exact ProofsC.model_multi_satisfies_spec_partial. Qed.
+Print Assumptions model_multi_satisfies_spec_partial.
+
 (* pinned tree, repaired by the fix: commits — the unrepaired client turned an error reply
    into an empty stream *)
 Theorem remote_error_surfaces_unpatched_refuted :
@@ -141,4 +177,15 @@ Example ex_partition :
   map (fun e => (fst e, map sid (snd e)))
       (map_shards 1 (fun _ _ => 1) [mkShard 1 [1; 2]; mkShard 2 [2; 3]; mkShard 3 [3; 2]; mkShard 4 [3; 1]])
   = [(1, [1; 4]); (3, [2; 3])].
+Proof. vm_compute. reflexivity. Qed.
+
+(* two measurements of the same db/rp (source 0 twice) and one of another rp (source 1),
+   coordinator 1 owns nothing: each source is mapped once *)
+Example ex_multi_source :
+  let view := fun src => if src =? 0 then [mkShard 10 [2]; mkShard 11 [3]] else [mkShard 20 [3]] in
+  let '(st, res) := model_mrun true 1 (fun _ _ _ => 0) view (fun s => [s]) (fun _ _ _ => Serve)
+                               [0; 0; 1] [(0, OpCI); (0, OpIC); (1, OpCI)] in
+  (rm_groups st, map fst res) =
+  ([(0, [(2, [mkShard 10 [2]]); (3, [mkShard 11 [3]])]); (1, [(3, [mkShard 20 [3]])])],
+   [QOk [10; 11]; QOk [2]; QOk [20]]).
 Proof. vm_compute. reflexivity. Qed.
